@@ -85,7 +85,11 @@ class RecordingGenerator:
                     if h < c.faults["tail_p"]:
                         zf[k] = zf[k] * 10.0 ** (1 + int(h / c.faults["tail_p"] * 12))
                         c.stats["fault_tail_draw"] += 1
-        res = loc + scale * z
+        # numpy's Generator.normal converts loc and scale to C doubles before using them: a float32 loc must not turn the
+        # arithmetic into float32 here (python-float z is a "weak" scalar under NEP 50)
+        loc_ = float(loc) if np.ndim(loc) == 0 else np.asarray(loc, dtype=float)
+        scale_ = float(scale) if np.ndim(scale) == 0 else np.asarray(scale, dtype=float)
+        res = loc_ + scale_ * z
         return self._rec("normal", (_summ(loc), _summ(scale), size), res)
 
     def standard_normal(self, size=None, dtype=np.float64, out=None):
@@ -160,7 +164,9 @@ class ScriptedGenerator:
         return out.reshape(size)
 
     def normal(self, loc=0.0, scale=1.0, size=None):
-        return loc + scale * self._take(self.normals, size)
+        loc_ = float(loc) if np.ndim(loc) == 0 else np.asarray(loc, dtype=float)
+        scale_ = float(scale) if np.ndim(scale) == 0 else np.asarray(scale, dtype=float)
+        return loc_ + scale_ * self._take(self.normals, size)
 
     def standard_normal(self, size=None, *a, **k):
         return self._take(self.normals, size)
